@@ -228,7 +228,7 @@ def run_one(index, seed, runner, tier, opts):
     wclass = f"{info['entry']}/{info['type']}/{info['ret']}/{info['search']}"
     counters["by_entry"][wclass] = 1
     faults = env_faults(rng, ctl["events"], op, files, ctl["outcomes"][0])
-    for df in rules.doc_faults(rng, doc, mfiles):
+    for df in rules.doc_faults(rng, doc, mfiles, hints=info):
         faults.append({"kind": "replace", "target": df["target"], "content": df["content"], "label": "D:" + df["label"], "klass": "D:" + df["klass"]})
     for f in faults:
         fop = copy.deepcopy(op)
@@ -262,8 +262,54 @@ def run_one(index, seed, runner, tier, opts):
                       "op": {k: v for k, v in op.items() if k != "faults"},
                       "fault": {k: (v if not isinstance(v, (dict, str)) or len(str(v)) < 300 else str(v)[:300] + "...") for k, v in f.items()},
                       "outcome": oc[:3] if oc[0] != "cli" else oc[:3], "events": [e for e in res["events"] if e["seam"] not in ("op_begin", "op_end")][:6]}
+    # ---- the same faults after a predecessor in the same process: a valid, non-matching rule was
+    #      loaded from the same paths just before (what a path-keyed cache would keep serving)
+    nf_doc = _not_found_variant(doc)
+    if nf_doc is not None and faults:
+        picks = rng.sample(faults, min(len(faults), PREDECESSOR_FAULTS[tier]))
+        for f in picks:
+            fop = copy.deepcopy(op)
+            fop["faults"] = [f]
+            pre = copy.deepcopy(op)
+            pre.pop("faults", None)
+            ops = [{"op": "write", "path": "rule.yaml", "content": gen.dump_yaml(nf_doc)}, pre,
+                   {"op": "write", "path": "rule.yaml", "content": files["rule.yaml"]}, fop]
+            runner.reset(files)
+            res = runner.run(ops, seed)
+            runner.reset(files)
+            evals += 1
+            vtime += res["vtime"]
+            digests.append(util.digest(res["events"]))
+            label = f["label"].split("@")[0]
+            counters["after_predecessor"] = counters.get("after_predecessor", 0) + 1
+            if is_found(res["outcomes"][1]) or not res["fired"][-1]:
+                continue
+            oc = res["outcomes"][-1]
+            cls = classify(oc)
+            distinct.add(f"{label}|{wclass}|{cls}|after-predecessor")
+            if cls == "silent":
+                counters["outcome"]["silent"] += 1
+                case = {"files": {k: util.enc_content(v) for k, v in files.items()}, "ops": ops,
+                        "extra": {"info": info, "no_yaml_shrink": True}}
+                v = _violation(f, fop, oc, info)
+                v["signature"] += ":after-predecessor"
+                v["detail"] += " (after a valid non-matching rule had been loaded from the same path in the same process)"
+                violations.append({"case": case, "violation": v})
     return {"evals": evals, "counters": counters, "distinct": sorted(distinct), "violations": violations, "digest": util.digest(digests),
             "sample": sample, "vtime": vtime, "warnings": warnings}
+
+
+PREDECESSOR_FAULTS = {"quick": 10, "thorough": 16}
+
+
+def _not_found_variant(doc):
+    """The same rule with one more leading item that matches nothing: valid, but not found."""
+    pat = doc.get("pattern")
+    if not isinstance(pat, list) or not pat:
+        return None
+    d = copy.deepcopy(doc)
+    d["pattern"] = ["fxsave64"] + d["pattern"]
+    return d
 
 
 def signature(f, op):
@@ -282,16 +328,21 @@ def _violation(f, fop, oc, info):
 
 
 def evaluate(case, runner):
-    """Replay/shrink oracle: the control (same op, no faults) must say FOUND and the faulted op must not end in not-found."""
+    """Replay/shrink oracle: the same operation without its fault, performed in a pristine process on the
+    files as they are at that point, must say FOUND; the faulted operation (after its predecessors, if
+    the case has any) must not end in not-found."""
     files = case["files"]
     runner.materialise(files)
     fop = case["ops"][-1]
+    for op in case["ops"][:-1]:
+        if op["op"] == "write":
+            runner.apply_write(op)
     ctl = copy.deepcopy(fop)
     ctl["faults"] = []
-    res = runner.run(case["ops"][:-1] + [ctl], 0)
+    res = runner.run([ctl], 0)
     if not is_found(res["outcomes"][-1]):
         return []
-    runner.reset(files)
+    runner.materialise(files)
     res = runner.run(case["ops"], 0)
     oc = res["outcomes"][-1]
     if not res["fired"][-1]:
@@ -299,7 +350,10 @@ def evaluate(case, runner):
     if classify(oc) != "silent":
         return []
     out = []
+    suffix = ":after-predecessor" if len(case["ops"]) > 1 else ""
     for idx in res["fired"][-1]:
         f = fop["faults"][idx]
-        out.append(_violation(f, fop, oc, (case.get("extra") or {}).get("info") or {"entry": fop["op"], "type": fop.get("type", "?")}))
+        v = _violation(f, fop, oc, (case.get("extra") or {}).get("info") or {"entry": fop["op"], "type": fop.get("type", "?")})
+        v["signature"] += suffix
+        out.append(v)
     return out
